@@ -1,4 +1,5 @@
 import Toq.Proofs.ExtGames
+import Toq.Properties.C07
 /-!
 # C09 — extended nonlocal games, quantum hedging, optimal cloning
 
@@ -469,6 +470,167 @@ theorem cloning_weak_duality {m : Nat} (states : List (EMat m 1)) (probs : List 
   hedging_weak_duality _ X Y hX hY
 
 end Hedging
+
+/-! ## Feasibility embedding: unentangled strategies are feasible points of the NPA relaxation for extended games
+
+`commuting_measurement_value_upper_bound(k)` calls `npa_constraints(mat, k, referee_dim = d)`: the moment matrix has
+`d × d` blocks indexed by pairs of words, `mat[x, y]` has the blocks `K(a,b|x,y)`.  An unentangled strategy — answer
+functions `f`, `g` and a referee state `ρ` — defines the point `R = ρ ⊗ z zᵀ` (`extR`; `z` = word values),
+`K(a,b|x,y) = [a = f x][b = g y] ρ`.  The theorems below say that this point satisfies what the generator emits and that
+the objective there is the strategy's value; the harness stream `ext_embedding` evaluates the captured cvxpy constraints
+at the same point.  (`unent_le_ns` above is the corresponding statement for `nonsignaling_value`.) -/
+
+section ExtEmbedding
+open Toq.Npa Toq.Games
+
+variable {d : Nat}
+
+/-- **The embedded moment matrix is positive semidefinite.**  For every PSD referee operator `ρ` (in particular every
+state), every number `n` of words and every vector `z` of word values, the matrix `ρ ⊗ z zᵀ` laid out as the code lays
+out `r_var` (flat index `i + n·p`: block `(i, j)` is `r_var[i::n, j::n]`) is positive semidefinite — a Kronecker product
+of positive semidefinite matrices.  This is the constraint `r_var >> 0` at the embedded point. -/
+theorem ext_embed_psd (n : Nat) (z : Nat → ℚ) (ρ : Matrix (Fin d) (Fin d) ℂ) (hρ : ρ.PosSemidef) :
+    (extR n z ρ).PosSemidef :=
+  extR_psd n z hρ
+
+/-- **Blocks of the embedded moment matrix satisfy the block equations of `npa_constraints(…, referee_dim = d)`.**
+For all answer functions `f`, `g`, every word list and every `ρ`, with `R = ρ ⊗ z zᵀ`, `z_i = val(words[i])`, and
+`blk i j` the sub-matrix `r_var[i::dim, j::dim]` (rows `i + dim·p`, columns `j + dim·q`):
+(1) the flat index of `(p, i)` is `i + dim·p`;
+(2) `blk i j = val(wᵢ)·val(wⱼ) · ρ`;
+(3) if the product word `wᵢ† wⱼ` reduces to the zero word (empty tuple, `wᵢ` containing a measurement) the block vanishes
+    (constraint `sub_mat == 0`);
+(4) two entries whose product words have the same non-empty reduced word have equal blocks (`sub_mat == old_sub_mat`);
+(5) if the product word reduces to `A_{a|x} B_{b|y}` the block is `[f x = a][g y = b] · ρ`, i.e. the block `K(a,b|x,y)` of the
+    assemblage of the unentangled strategy (`sub_mat == assemblage[x, y][a·d:(a+1)·d, b·d:(b+1)·d]`).
+Rests on `Toq.C07.reduce_preserves_val`. -/
+theorem ext_embed_blocks (f g : Nat → Nat) (words : List Word) (ρ : Matrix (Fin d) (Fin d) ℂ)
+    (i j i' j' : Fin words.length) :
+    let R := extR words.length (detZ f g words) ρ
+    let blk := fun i j : Fin words.length =>
+      Matrix.of fun p q : Fin d => R (finProdFinEquiv (p, i)) (finProdFinEquiv (q, j))
+    (∀ p : Fin d, (finProdFinEquiv (p, i) : Fin (d * words.length)).val = i.val + words.length * p.val) ∧
+    blk i j = (((val f g (wordAt words i) * val f g (wordAt words j) : ℚ)) : ℂ) • ρ ∧
+    (entryWord words i j = [] → hasMeas (wordAt words i) → blk i j = 0) ∧
+    (entryWord words i j ≠ [] → entryWord words i j = entryWord words i' j' → blk i j = blk i' j') ∧
+    (∀ sa sb : Sym, sa.player = Player.alice → sb.player = Player.bob → entryWord words i j = [sa, sb] →
+      blk i j = if f sa.question = sa.answer ∧ g sb.question = sb.answer then ρ else 0) := by
+  intro R blk
+  have hblk : ∀ i j : Fin words.length,
+      blk i j = (((val f g ((wordAt words i).reverse ++ wordAt words j) : ℚ)) : ℂ) • ρ := by
+    intro i j
+    ext p q
+    simp only [blk, R, Matrix.of_apply, extR_apply, Matrix.smul_apply, smul_eq_mul, detZ, val_append, val_reverse]
+  refine ⟨fun p => by simp [finProdFinEquiv], ?_, ?_, ?_, ?_⟩
+  · rw [hblk, val_append, val_reverse]
+  · intro hnil hm
+    have hm' : hasMeas ((wordAt words i).reverse ++ wordAt words j) := by
+      obtain ⟨s, hs, hp⟩ := hm
+      exact ⟨s, List.mem_append_left _ (List.mem_reverse.mpr hs), hp⟩
+    rw [hblk, (Toq.C07.reduce_preserves_val f g _).2.1 hnil hm']
+    simp
+  · intro hne heq
+    have h1 := (Toq.C07.reduce_preserves_val f g ((wordAt words i).reverse ++ wordAt words j)).1 hne
+    have h2 := (Toq.C07.reduce_preserves_val f g ((wordAt words i').reverse ++ wordAt words j')).1
+      (by rw [show reduceWord _ = entryWord words i' j' from rfl, ← heq]; exact hne)
+    rw [hblk, hblk, ← h1, ← h2]
+    show (((val f g (entryWord words i j) : ℚ)) : ℂ) • ρ = (((val f g (entryWord words i' j') : ℚ)) : ℂ) • ρ
+    rw [heq]
+  · intro sa sb ha hb hw
+    have hne : entryWord words i j ≠ [] := by rw [hw]; simp
+    have h1 := (Toq.C07.reduce_preserves_val f g ((wordAt words i).reverse ++ wordAt words j)).1 hne
+    rw [hblk, ← h1, show reduceWord _ = entryWord words i j from rfl, hw, val_pair f g sa sb ha hb]
+    unfold detK
+    split <;> simp
+
+/-- **Normalisation.**  For the word list of every level and all alphabet sizes the first word is the identity word, so
+the `(0,0)` block of the embedded moment matrix is `ρ` and the code's normalisation
+`sum(r_var[i * dim, i * dim] for i in range(referee_dim)) == 1` holds: the diagonal entries at flat indices `0 + dim·p`
+sum to `tr ρ = 1`. -/
+theorem ext_embed_normalised (f g : Nat → Nat) (base : Nat) (conf : List (Nat × Nat)) (ao ai bo bi : Nat)
+    (ρ : Matrix (Fin d) (Fin d) ℂ) (htr : ρ.trace = 1) :
+    let words := genWords base conf ao ai bo bi
+    let i0 : Fin words.length := ⟨0, (wordAt_genWords_zero base conf ao ai bo bi).2⟩
+    ∑ p : Fin d, extR words.length (detZ f g words) ρ (finProdFinEquiv (p, i0)) (finProdFinEquiv (p, i0)) = 1 := by
+  intro words i0
+  have hz : detZ f g words i0.val = 1 := by
+    show val f g (wordAt words 0) = 1
+    rw [(wordAt_genWords_zero base conf ao ai bo bi).1]
+    simp [val, valSym, Sym.ident]
+  simp only [extR_apply, hz]
+  simpa [Matrix.trace] using htr
+
+/-- **Objective.**  The objective of `commuting_measurement_value_upper_bound` / `nonsignaling_value`,
+`Σ_{a,b,x,y} π(x,y) · Re tr(P(a,b,x,y)ᴴ · K(a,b|x,y))` (the code multiplies by `pred_mat[...].conj().T`), evaluated at the
+assemblage `K(a,b|x,y) = [a = f x][b = g y] · ρ` of an unentangled strategy is the strategy's value
+`Re tr(M_{f,g} ρ)`, `M_{f,g} = Σ_{x,y} π(x,y) P(f x, g y, x, y)`, for Hermitian referee operators. -/
+theorem ext_embed_objective {A B X Y : Type*} [Fintype A] [Fintype B] [Fintype X] [Fintype Y] [DecidableEq A]
+    [DecidableEq B] (π : X → Y → ℝ) (P : A → B → X → Y → Matrix (Fin d) (Fin d) ℂ)
+    (hP : ∀ a b x y, (P a b x y).IsHermitian) (f : X → A) (g : Y → B) (ρ : Matrix (Fin d) (Fin d) ℂ) :
+    ∑ a, ∑ b, ∑ x, ∑ y, π x y * ((P a b x y)ᴴ * (if a = f x ∧ b = g y then ρ else 0)).trace.re
+      = unentValue π P f g ρ := by
+  rw [sum4_comm]
+  unfold unentValue avgMat
+  rw [Finset.sum_mul, Matrix.trace_sum, Complex.re_sum]
+  refine Finset.sum_congr rfl fun x _ => ?_
+  rw [Finset.sum_mul, Matrix.trace_sum, Complex.re_sum]
+  refine Finset.sum_congr rfl fun y _ => ?_
+  rw [Matrix.smul_mul, Matrix.trace_smul, smul_eq_mul, Complex.re_ofReal_mul]
+  rw [Finset.sum_eq_single (f x)]
+  · rw [Finset.sum_eq_single (g y)]
+    · simp [(hP _ _ _ _).eq]
+    · intro b _ hb; simp [hb]
+    · simp
+  · intro a _ ha; simp [ha]
+  · simp
+
+/-- **Every constraint of `npa_constraints(…, referee_dim = d)` holds at every unentangled strategy — all sizes, all
+levels, all referee dimensions.**  The generator runs the same loop as for `referee_dim = 1` and emits one block equation
+per scalar equation; so its mirror `npaConstraints` is read with values in `d × d` blocks (`Blk d ρ`: the scalar `1` is
+the block `ρ`, `≤` is the Loewner order).  For a density operator `ρ` and answer functions `f`, `g`, with
+`z_i = val(words[i])`, moment blocks `Rb i j = z_i z_j · ρ` and assemblage blocks `Kb a b x y = [f x = a][g y = b] · ρ`:
+* every emitted constraint holds blockwise: `Rb 0 0 = ρ` and `Σ_{a,b} Kb a b x y = ρ` (the code asks only for the traces of
+  these two, `= tr ρ = 1`, last conjunct), forced zero blocks, blocks tied to the assemblage and to its marginals, equal
+  blocks, `Kb ⪰ 0`, no-signalling marginals; and `r_var >> 0` holds for the flat matrix `ρ ⊗ z zᵀ`;
+* the flat matrix has exactly these blocks at the positions `r_var[i::dim, j::dim]`;
+* every assemblage block is Hermitian (the constraints `block == block.H` added by
+  `commuting_measurement_value_upper_bound`) and positive semidefinite.
+Obtained from `Toq.C07.npa_sound_det` through `sat_blk_of_sat`.  The harness (`ext_embedding`) plugs exactly this point
+into the constraint objects toqito builds. -/
+theorem ext_npa_sound_det (ao bo ai bi : Nat) (hai : 0 < ai) (hbi : 0 < bi) (k : LevelArg) (hwf : LevelWF k)
+    (base : Nat) (conf : List (Nat × Nat)) (hk : levelSpec k = some (base, conf))
+    (ρ : Matrix (Fin d) (Fin d) ℂ) (hρ : IsDensity ρ) (f : Fin ai → Fin ao) (g : Fin bi → Fin bo) :
+    let words := genWords base conf ao ai bo bi
+    let z := detZ (ext f) (ext g) words
+    let Rb : Nat → Nat → Blk d ρ := fun i j => blkOf ρ (z i * z j)
+    let Kb : Nat → Nat → Nat → Nat → Blk d ρ := fun a b x y => blkOf ρ (detK (ext f) (ext g) a b x y)
+    (∀ c ∈ npaConstraints ao bo ai bi base conf, Sat (extR words.length z ρ).PosSemidef ao bo Rb Kb c) ∧
+      (∀ (i j : Fin words.length) (p q : Fin d),
+        extR words.length z ρ (finProdFinEquiv (p, i)) (finProdFinEquiv (q, j)) = (Rb i j).mat p q) ∧
+      (∀ a b x y, (Kb a b x y).mat = if ext f x = a ∧ ext g y = b then ρ else 0) ∧
+      (∀ a b x y, (Kb a b x y).mat.IsHermitian ∧ (Kb a b x y).mat.PosSemidef) ∧
+      (1 : Blk d ρ).mat.trace = 1 := by
+  intro words z Rb Kb
+  have hK : ∀ a b x y, (Kb a b x y).mat = if ext f x = a ∧ ext g y = b then ρ else 0 := by
+    intro a b x y
+    show (((detK (ext f) (ext g) a b x y : ℚ)) : ℂ) • ρ = _
+    unfold detK
+    split <;> simp
+  refine ⟨fun c hc => ?_, fun i j p q => ?_, hK, fun a b x y => ?_, hρ.2⟩
+  · exact sat_blk_of_sat hρ.1 _ _ (fun _ => extR_psd _ _ hρ.1) ao bo _ _ c
+      ((Toq.C07.npa_sound_det ao bo ai bi hai hbi k hwf base conf hk (fun _ _ => 0) (fun _ _ _ _ => 0) f g).1 c hc)
+  · rw [extR_apply]; rfl
+  · rw [hK]
+    split
+    · exact ⟨hρ.1.isHermitian, hρ.1⟩
+    · exact ⟨Matrix.isHermitian_zero, Matrix.PosSemidef.zero⟩
+
+/-- the hypotheses are satisfiable: the maximally mixed qubit state is a density operator -/
+example : IsDensity (((1 / 2 : ℝ) : ℂ) • (1 : Matrix (Fin 2) (Fin 2) ℂ)) := by
+  refine ⟨Matrix.PosSemidef.one.smul (Complex.zero_le_real.mpr (by norm_num)), ?_⟩
+  simp [Matrix.trace_smul]
+
+end ExtEmbedding
 
 /-! ## The checkers accept concrete instances -/
 
